@@ -3,7 +3,9 @@ import ShellOp.Model.Discovery
 /-! Line-protocol suite for C20 (hook discovery). Core-only.
 
 ```
-tree <rootName> <preorder tokens: d <name> … u | f <name> <octal mode> <ok|fail|invalid>>
+tree <rootName> <preorder tokens: d <name> … u | f <name> <octal mode> <ok|fail|invalid>[:<class>]>
+                      (a case may contain several `tree` lines: the hooks directory as it is at each
+                       start of a hook manager in the same process; each replaces the model's tree)
                       -> walk=<relative paths in the order RecursiveGetExecutablePaths returned them>
 oracle discover got=<…>       the property: got is exactly the set of hook paths (documented literals)
 init                  -> names=<GetHookNames> asked=<--config invocation log> err=<hook named by the error>
@@ -16,8 +18,11 @@ open ShellOp ShellOp.Util ShellOp.Discovery
 structure St where
   root : Option (Path × Tree) := none
 
-def outcome? : String → Option Outcome
-  | "ok" => some .ok | "fail" => some .fail | "invalid" => some .invalid | _ => none
+/-- `ok | fail | invalid`, optionally followed by `:<what the hook prints / does>` (the catalogue class
+of the configuration: the concrete input of the replay; the model only needs the outcome) -/
+def outcome? (s : String) : Option Outcome :=
+  match s.splitOn ":" with
+  | "ok" :: _ => some .ok | "fail" :: _ => some .fail | "invalid" :: _ => some .invalid | _ => none
 
 def octal? (s : String) : Option Nat :=
   if s.isEmpty then none else
